@@ -133,6 +133,12 @@ def main():
                 try:
                     with contextlib.redirect_stdout(buf):
                         fn(h)
+                except (KeyError, IndexError, AssertionError) as e:
+                    # the oracle could not even take the output of the real code apart (a key / position it must contain is
+                    # missing): the output does not have the shape the property prescribes -> a failed case, with the
+                    # traceback as the observation.  (On the unchanged tree this would show up as a violation at once.)
+                    h.check(False, None, 'oracle evaluation', 'an output the oracle can read',
+                            '%s: %s | %s' % (type(e).__name__, e, traceback.format_exc().strip().splitlines()[-3].strip()[:200]))
                 except ImportError as e:
                     # the test names a function / class of the library that the current source no longer has under that
                     # name (rename, move): the bounded test cannot be mapped onto the code -> skipped, reported as undecided
